@@ -19,7 +19,7 @@ func init() {
 		{"IndexByDate.takes", loopVerdictKernel(ml, "TemporalLogClient.IndexByDate", "tlc.intervals", "interval", "indexByDateTakes", "(lower upper : Option Int) (when : Int)", "Bool", "false",
 			Spec{Canon: true, Inline: true, Ret: "verdict", ReturnVal: "true", ContinueVal: "false", ParamNames: []string{"when"},
 				Repl: map[string]string{"interval.lower != nil": "lower.isSome", "*interval.lower": "(lower.getD 0)", "interval.upper != nil": "upper.isSome",
-					"*interval.upper": "(upper.getD 0)", "when": "when", "interval.lower == nil": "lower.isNone", "interval.upper == nil": "upper.isNone"}})},
+					"*interval.upper": "(upper.getD 0)", "when": "when", "interval.lower == nil": "(!lower.isSome)", "interval.upper == nil": "(!upper.isSome)"}})},
 		{"IndexByDate.loopShape", indexByDateShape(ml)},
 		// shardInterval: refused when inverted (or empty).
 		{"shardInterval.inverted", condKernel(ml, "shardInterval", []string{".lower != nil", ".upper != nil", "Before"}, "shardIntervalInverted", "(lower upper : Option Int)",
